@@ -14,8 +14,10 @@ list / dict semantics prescribe for that operation:
   three stores as they were.
 
 List-style growth of a *named* selector (append / insert / extend / integer
-item assignment, which the library itself reports as deprecated) is not part
-of the model; notification (one scope per mutator, new value read after the
+item assignment, which the library itself reports as deprecated) is modelled
+too, with the weaker specification "every object of the list view has some
+label"; on the pinned tree it does not (one known finding, same root cause as
+R18.f).  Notification (one scope per mutator, new value read after the
 mutation) is decided by R18.d / R18.i.
 """
 from __future__ import annotations
@@ -144,8 +146,10 @@ def model(ctx):
     new, new2 = Obj("n", label="n"), Obj("m", label="m")
     twin = lambda elems: Obj("equal_twin_of_y", label="y", __eqclass__="value-of-y")
 
-    def check(desc, method, named, args, exp_view, exp_names, exp_ret="-", exp_raise=None, nn=3, kw=None):
+    def check(desc, method, named, args, exp_view, exp_names, exp_ret="-", exp_raise=None, nn=3, kw=None, group=None):
         nonlocal n
+        if group:
+            desc = group + " :: " + desc
         try:
             o, proxy, param, elems, before = _run(ctx, method, named, args, nn, kw)
         except Unsupported as e:
@@ -170,7 +174,11 @@ def model(ctx):
             problems.append((desc, "the list view is %s, specification %s" % (_ids(view), _ids(ev))))
         if len(objs) != len(view) or any(a is not b for a, b in zip(objs, view)):
             problems.append((desc, "_objects is %s but the list view is %s" % (_ids(objs), _ids(view))))
-        if not isinstance(names, dict) or list(names) != list(en) or any(names[k] is not en[k] for k in en):
+        if en is None:
+            # any labels will do, but every object of the list view needs one
+            if len(names) != len(view) or any(a is not b for a, b in zip(names.values(), view)):
+                problems.append((desc, "names.values() %s is not the list view %s: items()/keys()/values() no longer describe the objects" % (_ids(names.values()), _ids(view))))
+        elif not isinstance(names, dict) or list(names) != list(en) or any(names[k] is not en[k] for k in en):
             problems.append((desc, "names is %s, specification %s" % (
                 {k: getattr(v, "name", v) for k, v in names.items()} if isinstance(names, dict) else names, {k: v.name for k, v in en.items()})))
         elif names and (len(names) != len(view) or any(a is not b for a, b in zip(names.values(), view))):
@@ -220,6 +228,13 @@ def model(ctx):
     check("{a: x, b: y, c: z}.remove(n)", "remove", True, [new], None, None, exp_raise="ValueError")
     check("{a: x, b: y, c: z}.clear()", "clear", True, [], lambda e: [], NONE)
     check("{a: x}.pop('a')", "pop", True, ["a"], lambda e: [], NONE, lambda e: e[0], nn=1)
+    # ---- list-style growth of a named selector (the library logs a deprecation warning and goes on)
+    G = "list-style growth of a dict-declared selector"
+    ANY = lambda e: None
+    check("{a: x, b: y, c: z}.append(n)", "append", True, [new], lambda e: e + [new], ANY, group=G)
+    check("{a: x, b: y, c: z}.insert(1, n)", "insert", True, [1, new], lambda e: [e[0], new, e[1], e[2]], ANY, group=G)
+    check("{a: x, b: y, c: z}.extend([n, m])", "extend", True, [[new, new2]], lambda e: e + [new, new2], ANY, group=G)
+    check("{a: x, b: y, c: z}[1] = n", "__setitem__", True, [1, new], lambda e: [e[0], new, e[2]], ANY, group=G)
     return n, problems
 
 
@@ -238,8 +253,7 @@ def report(ctx, rule):
         return
     seen = set()
     for desc, what in problems:
-        m = desc.split("(")[0].split("[")[0]
-        k = "%s::listproxy-model::%s" % (LP, desc)
+        k = "%s::listproxy-model::%s" % (LP, desc.split(" :: ")[0] if " :: " in desc else desc)
         if k in seen:
             continue
         seen.add(k)
